@@ -63,6 +63,8 @@ func (c18) Info(tier string) fw.Info {
 			"Also lists and objects whose element / field cells hold empty options ([?int], [{a:?int}], {a:?int,b:str}, {o:?str,l:[?int]}) and any-objects holding none / null / a list with none. " +
 			"Where the reference model leaves the answer open (value or interrupt) the program additionally runs on both runtimes in one case and both must accept or both must interrupt. Receivers are built as literals and, where expressible, also by parse_json and by a cast to {?}; " +
 			"as the variable of a for loop over a one-element list and through a cast to the receiver's own type for every in-place assignment and, with up to 6 (thorough: 24) argument tuples per member, for the last receiver of each type. " +
+			"Lists, objects and any-objects are also built by a helper function whose body is the construction (fresh origin): receiver, twin and a third value made after the operation are three products of one construction site (every in-place assignment, every member call the model says writes into the receiver, and everything for the last receiver of each type); the third value must be the value written down. " +
+			"The any-object receivers hold every storable kind (typed objects, nested any-objects, floats, lists / options of objects, ranges, functions; also as nested objects of parsed JSON), and get_type of a present key must answer with the analyzer's name of that kind. " +
 			"Every program also builds an untouched second value like the receiver and probes it after the operation (it must be unchanged). to_json / to_json_indent results are parsed and compared as documents with the receiver. " +
 			"null-returning members run as a statement and bound to a variable; ?any results are also observed uncast through .to_string(). thorough adds 7-element and seed-chosen receivers and up to 200 argument tuples. " +
 			"non-trivial = the analyzer accepted the program and the member/index operation was executed by the backend (its result was probed, or it raised an interrupt, or it crashed); " +
@@ -70,7 +72,9 @@ func (c18) Info(tier string) fw.Info {
 		Assumptions: []string{
 			"the reference model (props/c18/model.go) fixes: negative indices count from the end for indexing, insert (positions 0..len), remove, substring; out-of-range => interrupt; substring(len) may be the whole string or an interrupt",
 			"string operations at text level (replace/split/case/number parsing) and float rendering are mirrored from the Go standard library, not re-derived",
-			"members without a model entry (to_string of objects, get_type, to_json* of values holding a range) are checked for survival, the advertised type, and that both runtimes agree on accepting / interrupting",
+			"members without a model entry (to_string of objects, get_type of an absent key, to_json* of values holding a range) are checked for survival, the advertised type, and that both runtimes agree on accepting / interrupting",
+			"{?}.get_type(key) of a present key names the kind of the stored value with the analyzer's own name for that kind (ast.TypeKind.String() of the real analyzer: the kind whose member table the value has), the same in both runtimes",
+			"every evaluation of a construction (literal, new { ? } plus set calls) delivers a value of its own: a value made by a helper function is the value written down in its body, whatever happened to earlier products of that function",
 			"to_json / to_json_indent return JSON text that denotes the receiver: arrays with every element in order, objects with every data field, none / null as JSON null, Some(x) as x; layout, key order and number spelling are not modelled (C13)",
 			"an operation on one value leaves a second, separately constructed value alone, whatever produced the two (literal, parse_json, cast, loop variable)",
 			"a data field named like a builtin member is the member the analyzer offers (with the type of the field): reading and assigning it must reach the field in both runtimes",
@@ -100,6 +104,8 @@ type rcv struct {
 	Origin string
 	// AssignOnly: this (receiver, origin) is used for the in-place assignments only
 	AssignOnly bool
+	// Writers: ... and for the member calls that change the receiver (reference model)
+	Writers bool
 }
 
 // extraTuples caps the argument tuples per (receiver, member) of the extra origins.
@@ -111,12 +117,21 @@ func extraTuples(thorough bool) int {
 }
 
 // Extra reports whether the origin is one of the extra origins.
-func (r rcv) Extra() bool { return r.Origin == "loop" || r.Origin == "as" }
+func (r rcv) Extra() bool { return r.Origin == "loop" || r.Origin == "as" || r.Origin == "fresh" }
+
+// writes reports whether the reference model says that the call changes the receiver.
+func writes(recv rv, member string, args []rv) bool {
+	e := modelMember(recv, member, args)
+	return e.Mode == mValue && e.HasAfter && !eq(e.After, recv)
+}
 
 // expand lists the (receiver, origin) combinations of an instance. Every receiver is built through
 // each of its base origins. The extra origins (loop variable, cast to its own type) are used with
 // every receiver for the in-place assignments (the operation that writes into a cell the origin
 // created) and with the last receiver of the quick matrix (the "many" one) for everything else.
+// The fresh origin (several products of one construction site) is used with every receiver also for
+// the member calls that write into the receiver: a product that was written to is what a later
+// product of the same site must not be.
 func expand(in inst) []rcv {
 	last := ""
 	if q, ok := instByName(in.Name); ok && len(q.Vars) > 0 {
@@ -125,10 +140,10 @@ func expand(in inst) []rcv {
 	var out []rcv
 	for _, v := range in.Vars {
 		for _, o := range originsOf(v) {
-			out = append(out, rcv{v, o, false})
+			out = append(out, rcv{v, o, false, false})
 		}
 		for _, o := range extraOriginsOf(in, v) {
-			out = append(out, rcv{v, o, show(v) != last})
+			out = append(out, rcv{v, o, show(v) != last, o == "fresh" && show(v) != last})
 		}
 	}
 	return out
@@ -150,6 +165,15 @@ func (c18) Cases(tier string, seed uint64) []fw.Case {
 	n := 0
 	add := func(p payload) {
 		p.Twin = p.Part != "api"
+		if strings.Contains(p.Src, " as ?fn(") {
+			// A stored function read back through get / -> : the analyzer refuses `any as fn(..)`
+			// ("cannot cast a function value at runtime") but accepts `?any as ?fn(..)`, which the
+			// interpreter answers with the Go panic "Unreachable, the analyzer prevents this" and the
+			// VM with a cast error. That is a defect of the cast, not of the member (reported by the
+			// author of this workload as a side finding); the member is still observed uncast through
+			// the chain form, get_type, keys, set and the receiver probes.
+			return
+		}
 		tags, open := tagsFor(&p)
 		id := fmt.Sprintf("c18-%s-%06d", p.Part, n)
 		n++
@@ -207,7 +231,7 @@ func (c18) Cases(tier string, seed uint64) []fw.Case {
 					continue
 				}
 				params, ok := paramsOf(ft)
-				if !ok || rc.AssignOnly {
+				if !ok || (rc.AssignOnly && !rc.Writers) {
 					continue
 				}
 				forms := []string{"let"}
@@ -225,6 +249,15 @@ func (c18) Cases(tier string, seed uint64) []fw.Case {
 					}
 				}
 				tuples := argTuples(params, recv, thorough)
+				if rc.AssignOnly {
+					var w [][]rv
+					for _, args := range tuples {
+						if writes(recv, m, args) {
+							w = append(w, args)
+						}
+					}
+					tuples = w
+				}
 				if rc.Extra() {
 					// the extra origins repeat the member on a value that was produced differently:
 					// a few argument tuples (first and last included) are enough for that
@@ -641,8 +674,12 @@ func judge(p *payload, in inst, e expect, adv ast.Type, ob observed) []failure {
 		return []failure{{"no-interrupt", fmt.Sprintf("an out-of-range / failing operation must end in an interrupt, but the run completed with result %s", got)}}
 	}
 	// which probes are expected
-	var r, recvAfter, twin *rv
+	var r, recvAfter, twin, late *rv
 	rest := ob.probes
+	if p.Origin == "fresh" && len(rest) > 0 {
+		// the last probe is one more product of the construction, made after the operation
+		late, rest = &rest[len(rest)-1], rest[:len(rest)-1]
+	}
 	if p.Twin && len(rest) > 0 {
 		twin, rest = &rest[len(rest)-1], rest[:len(rest)-1]
 	}
@@ -663,6 +700,10 @@ func judge(p *payload, in inst, e expect, adv ast.Type, ob observed) []failure {
 	// still the value that was written down
 	if twin != nil && !eq(*twin, p.Recv) {
 		fails = append(fails, failure{"other-value-changed", fmt.Sprintf("a second value constructed as %s, which the program never touches, is %s after the operation on the receiver (the two values share storage, or the construction did not deliver the value)", show(p.Recv), show(*twin))})
+	}
+	// ... and so is a further product of the construction site that made the receiver
+	if late != nil && !eq(*late, p.Recv) {
+		fails = append(fails, failure{"later-value-differs", fmt.Sprintf("the construction that produced the receiver, evaluated once more after the operation, delivers %s instead of %s (an evaluation of a literal hands out the storage of an earlier product, so what was done to the receiver shows up in a value made later)", show(*late), show(p.Recv))})
 	}
 	// typed result
 	ct := checkType(adv, e)
@@ -707,7 +748,11 @@ func judge(p *payload, in inst, e expect, adv ast.Type, ob observed) []failure {
 			}
 		}
 		if !same {
-			fails = append(fails, failure{"wrong-result", fmt.Sprintf("result %s, the reference model says %s", show(*r), show(want))})
+			why := fmt.Sprintf("result %s, the reference model says %s", show(*r), show(want))
+			if e.Note != "" {
+				why += " (" + e.Note + ")"
+			}
+			fails = append(fails, failure{"wrong-result", why})
 		}
 	}
 	if e.HasAfter && !eq(*recvAfter, e.After) {
